@@ -21,7 +21,12 @@ import (
 
 	"github.com/lestrrat-go/jwx/v2/jwa"
 	"github.com/lestrrat-go/jwx/v2/jwt"
+	"github.com/nuts-foundation/nuts-node/audit"
+	nutsCrypto "github.com/nuts-foundation/nuts-node/crypto"
 	"github.com/nuts-foundation/nuts-node/http/tokenV2"
+	"github.com/nuts-foundation/nuts-node/jsonld"
+	"github.com/nuts-foundation/nuts-node/vcr/signature"
+	"github.com/nuts-foundation/nuts-node/vcr/signature/proof"
 	"github.com/nuts-foundation/nuts-node/vdr/resolver"
 	"go.uber.org/mock/gomock"
 )
@@ -156,6 +161,84 @@ func TestVerifC17VcJwt(t *testing.T) {
 					}
 				}()
 				b, _ := json.Marshal(vVcOp{Op: "consume", C: "vcjwt", Name: v.Name, Class: v.Class, HAlg: v.HAlg, By: v.By, Issuer: issuer, Info: info, V: verd})
+				ops.Write(b)
+				ops.WriteByte('\n')
+				impl.WriteString(res + "\n")
+				n++
+			}
+		}
+	}
+	// ---------------- the JSON-LD format of the same clause: signatureVerifier.jsonldProof. The proof's verificationMethod must
+	// be a key of the issuer; documents are signed with the real LDProof.Sign by the issuer, by an unrelated resolvable party
+	// and by look-alike parties (DID a textual extension / prefix of the issuer's)
+	{
+		jm := jsonld.NewTestJSONLDManager(t)
+		svld := signatureVerifier{keyResolver: nil, jsonldManager: jm}
+		cryptoInstance := nutsCrypto.NewMemoryCryptoInstance(t)
+		ldSource := map[string]crypto.PublicKey{}
+		ldResolver := resolver.NewMockKeyResolver(ctrl)
+		ldResolver.EXPECT().ResolveKeyByID(gomock.Any(), gomock.Any(), resolver.NutsSigningKeyType).DoAndReturn(
+			func(kid string, _ *resolver.ResolveMetadata, _ resolver.RelationType) (crypto.PublicKey, error) {
+				if k, ok := ldSource[kid]; ok {
+					return k, nil
+				}
+				return nil, resolver.ErrKeyNotFound
+			}).AnyTimes()
+		svld.keyResolver = ldResolver
+		newParty := func(didStr string) string {
+			kid := didStr + "#key-1"
+			if _, ok := ldSource[kid]; !ok {
+				_, pk, err := cryptoInstance.New(audit.TestContext(), nutsCrypto.StringNamingFunc(kid))
+				if err != nil {
+					t.Fatal(err)
+				}
+				ldSource[kid] = pk
+			}
+			return kid
+		}
+		signSuite := signature.JSONWebSignature2020{ContextLoader: jm.DocumentLoader(), Signer: cryptoInstance}
+		for _, issuerName := range []string{"alice", "bob"} {
+			issuer := "did:web:example.com:iam:" + issuerName
+			signers := map[string]string{"issuer": issuer, "other-party": "did:web:example.com:iam:mallory"}
+			for _, sfx := range []string{"2", ".attacker.net", ":sub", "%23x"} {
+				signers["lookalike("+issuerName+sfx+")"] = issuer + sfx
+			}
+			signers["lookalike-prefix"] = issuer[:len(issuer)-2]
+			for who, signerDID := range signers {
+				name := issuerName + "-signed-by-" + who
+				if len(only) > 0 && !only["vcld|"+name] {
+					continue
+				}
+				kid := newParty(signerDID)
+				document := map[string]interface{}{
+					"@context": []interface{}{map[string]interface{}{"title": "http://schema.org#title", "issuer": "http://schema.org#author"}},
+					"title":    "credential of " + issuerName, "issuer": issuer,
+				}
+				res0, err := proof.NewLDProof(proof.ProofOptions{Created: now.Add(-time.Second), ProofPurpose: "assertionMethod"}).Sign(audit.TestContext(), document, signSuite, kid)
+				if err != nil {
+					t.Fatal(err)
+				}
+				class, by := "valid", "signer"
+				if who != "issuer" {
+					class, by = "lookalike-did-forged", "attacker"
+					if who == "other-party" {
+						class = "forged"
+					}
+				}
+				_, found := ldSource[kid]
+				res := "reject"
+				func() {
+					defer func() {
+						if p := recover(); p != nil {
+							res = "panic"
+						}
+					}()
+					if err := svld.jsonldProof(res0, issuer, nil); err == nil {
+						res = "accept"
+					}
+				}()
+				b, _ := json.Marshal(vVcOp{Op: "consume", C: "vcld", Name: name, Class: class, HAlg: "ES256", By: by, Issuer: issuer,
+					V: map[string]interface{}{"vm": kid, "keyfound": found, "validat": true, "keyalg": "ES256", "canon": true, "parts": 2, "sigdecodes": true, "verified": true}})
 				ops.Write(b)
 				ops.WriteByte('\n')
 				impl.WriteString(res + "\n")
